@@ -131,7 +131,7 @@ class Builder:
             else:
                 out = callee.vmap(in_axes=(0, None if G["bcast"] else 0))
         elif k == "scan":
-            out = Scan(self.build(G["callee"], role="scan"), length=const(G["n"]))
+            out = Scan(self.build(G["callee"], role="scan_kw" if G.get("kwstep") else "scan"), length=const(G["n"]))
         elif k == "cond":
             out = Cond(self.build(G["t"]), self.build(G["f"]))
         else:
@@ -160,6 +160,8 @@ class Builder:
                 cargs = B.call_args(st["callee"], sub, a)
                 if st["kw"] and (B.kind(st["callee"]) == "fn" or B.GF[st["callee"]].get("kwarg")):
                     env[st["addr"]] = callee(cargs[0], arg=cargs[1]) @ st["addr"]
+                elif st["kw"] and B.GF[st["callee"]].get("kwstep"):
+                    env[st["addr"]] = callee(cargs[0], cargs[1], bump=1) @ st["addr"]
                 elif st["kw"] and B.kind(st["callee"]) == "cond":
                     # keyword arguments through a combinator: Cond forwards them to both branches
                     env[st["addr"]] = callee(cargs[0], cargs[1], arg=cargs[2]) @ st["addr"]
@@ -170,6 +172,11 @@ class Builder:
         if role == "scan":
             def src(carry, sx):
                 return body(sx[0], (carry, sx[1]))
+        elif role == "scan_kw":
+            # a step function with a keyword parameter (default 0): the specification's step is the one with bump = 1, which the
+            # parent passes by keyword; a Scan method that drops the keyword runs the step with the default
+            def src(carry, sx, bump=0):
+                return body(sx[0], (carry, sx[1] + bump - 1))
         else:
             def src(script, arg):
                 return body(script, arg)
